@@ -56,7 +56,7 @@ def run_child(plan, workdir, keeplog=False, timeout=90, gomaxprocs="1"):
         plan["state_out"] = os.path.join(workdir, "state%d.json" % inc)
         with open(pf, "w") as f:
             json.dump(plan, f)
-        env = dict(os.environ, VERIF_PLAN=pf, VERIF_OUT=of, GOMAXPROCS=gomaxprocs, GODEBUG="asyncpreemptoff=1")
+        env = dict(os.environ, VERIF_PLAN=pf, VERIF_OUT=of, GOMAXPROCS=gomaxprocs, GODEBUG="asyncpreemptoff=1", GOGC=os.environ.get("VERIF_GOGC", "off"))
         if keeplog:
             env["VERIF_KEEPLOG"] = "1"
         try:
